@@ -7,6 +7,7 @@ import (
 	"os"
 	"os/exec"
 	"path/filepath"
+	"runtime"
 	"strings"
 	"sync"
 	"time"
@@ -172,7 +173,7 @@ func solveUnit(sc *Script, opt solveOpts) []ObResult {
 			if pass == 0 {
 				perQ, budget = opt.quickMs, opt.quickMs+3000
 			}
-			out, s1 := runSolverBudget(pctx, sp, incFile, perQ, budget)
+			out, s1 := runSolverBudget(pctx, sp, incFile, scaled(perQ), scaled(budget))
 			pch <- passOut{out, s1, sp.name + "(incremental)"}
 		}(pass, sp)
 	}
@@ -203,7 +204,47 @@ func solveUnit(sc *Script, opt solveOpts) []ObResult {
 			}
 		}
 	}
-	return solveFallback(sc, opt, dir, idx, results)
+	// Obligations left over: besides the stand-alone race (solveFallback), the whole incremental script is
+	// run once more on z3 with six times the per-query limit and a process budget to match. Some
+	// obligations (quantified array facts around the AEAD functions) are proved in a second or two in
+	// the context of the unit's earlier queries and by no solver stand-alone; if the first pass was cut
+	// short - a busy machine - the stand-alone race alone would report them as undecided.
+	left := 0
+	for _, i := range idx {
+		if r := results[i]; !r.IsCover && r.Status != "proved" {
+			left++
+		}
+	}
+	var again chan string
+	if left > 0 {
+		again = make(chan string, 1)
+		go func() {
+			opt.sem <- struct{}{}
+			defer func() { <-opt.sem }()
+			out, _ := runSolverBudget(context.Background(), solvers[0], incFile, scaled(opt.quickMs*6), scaled(opt.quickMs*12))
+			again <- out
+		}()
+	}
+	out := solveFallback(sc, opt, dir, idx, results)
+	if again != nil {
+		redo := map[int]*ObResult{}
+		for _, i := range idx {
+			it := sc.Items[i]
+			redo[i] = &ObResult{Status: "undecided", IsCover: it.Kind == ItCover}
+		}
+		solveParse(<-again, redo, "z3-new(incremental, second run)")
+		for k := range out {
+			o := &out[k]
+			if o.IsCover || o.Status != "undecided" {
+				continue
+			}
+			if k < len(idx) && redo[idx[k]].Status == "proved" {
+				o.Status, o.Solver = "proved", redo[idx[k]].Solver
+				o.Output += "; proved by the second incremental run"
+			}
+		}
+	}
+	return out
 }
 
 var incrementalCvc5 = solverSpec{"cvc5", func(f string, ms int) []string {
@@ -297,7 +338,7 @@ func solveFallback(sc *Script, opt solveOpts, dir string, idx []int, results map
 					if r.IsCover {
 						ms = coverMs
 					}
-					o, s := runSolver(ctx, sp, file, ms)
+					o, s := runSolver(ctx, sp, file, scaled(ms))
 					ch <- res{sp.name, firstVerdict(o), o, s}
 				}(sp)
 			}
@@ -340,9 +381,48 @@ func solveFallback(sc *Script, opt solveOpts, dir string, idx []int, results map
 			}
 			if r.IsCover {
 				r.Status = "cover-unknown"
-			} else {
-				r.Status = "undecided"
+				r.Output = strings.Join(notes, "; ")
+				return
 			}
+			// second chance: nothing answered within the budget. On a loaded machine a query that
+			// normally takes a few seconds can miss it; before an obligation is reported as undecided
+			// (which ends the run with a VIOLATION line) it is tried once more, stand-alone, with five
+			// times the budget, on the two solver families side by side.
+			ch2 := make(chan res, 2)
+			ctx2, cancel2 := context.WithCancel(context.Background())
+			defer cancel2()
+			second := []solverSpec{solvers[0], solvers[2]}
+			for _, sp := range second {
+				go func(sp solverSpec) {
+					opt.sem <- struct{}{}
+					defer func() { <-opt.sem }()
+					if ctx2.Err() != nil {
+						ch2 <- res{sp.name, "cancelled", "", 0}
+						return
+					}
+					o, s := runSolver(ctx2, sp, file, scaled(opt.fallbackMs*5))
+					ch2 <- res{sp.name, firstVerdict(o), o, s}
+				}(sp)
+			}
+			for k := 0; k < len(second); k++ {
+				x := <-ch2
+				notes = append(notes, fmt.Sprintf("2nd %s: %s (%.1fs)", x.solver, x.verdict, x.secs))
+				if x.verdict == "unsat" {
+					r.Status, r.Solver = "proved", x.solver+"(second chance)"
+					r.TimeS += x.secs
+					r.Output = strings.Join(notes, "; ")
+					cancel2()
+					return
+				}
+				if x.verdict == "sat" {
+					r.Status, r.Solver = "refuted", x.solver
+					r.TimeS += x.secs
+					r.Output = strings.Join(notes, "; ") + "\n" + truncate(x.out, 20000)
+					cancel2()
+					return
+				}
+			}
+			r.Status = "undecided"
 			r.Output = strings.Join(notes, "; ")
 		}(i, r)
 	}
@@ -353,6 +433,40 @@ func solveFallback(sc *Script, opt solveOpts, dir string, idx []int, results map
 	}
 	return outRes
 }
+
+// loadScale: solver budgets are wall-clock limits, so on a machine that is busy with other work (other
+// checks running side by side, a test suite) a query that normally needs a few seconds would miss its
+// limit and be reported as undecided - a false alarm. Every budget is therefore stretched by the ratio
+// of runnable processes to cores, read when the solver is started (1 on an idle machine, at most 6).
+func loadScale() float64 {
+	data, err := os.ReadFile("/proc/loadavg")
+	if err != nil {
+		return 1
+	}
+	f := strings.Fields(string(data))
+	if len(f) < 4 {
+		return 1
+	}
+	var l1 float64
+	fmt.Sscanf(f[0], "%f", &l1)
+	var run, tot int
+	fmt.Sscanf(f[3], "%d/%d", &run, &tot)
+	n := float64(runtime.NumCPU())
+	x := l1
+	if float64(run) > x {
+		x = float64(run)
+	}
+	s := x / n
+	if s < 1 {
+		s = 1
+	}
+	if s > 6 {
+		s = 6
+	}
+	return s
+}
+
+func scaled(ms int) int { return int(float64(ms) * loadScale()) }
 
 var quickMsGlobal = 10000
 
